@@ -305,6 +305,7 @@ func (s *State) evalInternal(node any) object.Object { //nolint:funlen,gocognit,
 				return oerr // propagate that func FOO() { ... } can only be defined once.
 			}
 		}
+		s.env.NoteClosure()
 		return fn
 	case *ast.CallExpression:
 		f := s.Eval(node.Function)
